@@ -20,7 +20,9 @@ EXTENDS Integers, Sequences, FiniteSets, TLC, Json
 CONSTANTS Days, NCols, BlocksPerDay, MaxDamages
 
 Files == {"meta"} \cup {"col" \o ToString(c) : c \in 1..NCols}
-Kinds == {"truncate", "bitflip", "garbage", "swap-column", "swap-day", "missing", "zero-length", "grow"}
+\* "field-ones": one field of the file's structure is set to all ones (metadata: a day total / a block length /
+\* an encoder-type byte / a timestamp delta, chosen by the region; column file: the first bytes of a block)
+Kinds == {"truncate", "bitflip", "garbage", "swap-column", "swap-day", "missing", "zero-length", "grow", "field-ones"}
 Regions == {"head", "first-block", "mid", "last-block"}
 
 VARIABLES damaged,   \* set of [day, file, kind, region]
@@ -54,7 +56,12 @@ Query ==
   /\ phase = "setup"
   /\ phase' = "done"
   /\ outcome' = [d \in Days |-> IF d \notin DamagedDays(damaged) THEN "exact"
-                                ELSE IF MetaDamaged(damaged, d) \/ d \notin {x.day : x \in damaged} THEN "any" ELSE "subset"]
+                                ELSE IF MetaDamaged(damaged, d) \/ d \notin {x.day : x \in damaged} THEN "any"
+                                \* a damaged metadata file anywhere may carry bogus block timestamps, and the engine takes
+                                \* the covered time range from the first / last day: blocks can then be left out as "outside
+                                \* the range" rather than skipped as corrupted, so the count is only judged without it
+                                ELSE IF \E x \in damaged : x.file = "meta" THEN "any"
+                                ELSE "subset"]
   /\ UNCHANGED damaged
   /\ act' = [name |-> "Query"]
 
